@@ -280,8 +280,9 @@ type Client struct {
 	// failed (re)connect attempt
 	writeSem chan net.Conn
 
-	// The semaphore allows for one ping request at a time.
-	pingAck chan chan<- error
+	// The slot allows for one ping request at a time. A pending request
+	// is identified by its response channel.
+	pingAck atomic.Pointer[chan error]
 
 	atLeastOnce, exactlyOnce outbound
 
@@ -353,7 +354,6 @@ func newClient(p Persistence, config *Config) *Client {
 		offlineSig:  make(chan chan struct{}, 1),
 		connSem:     make(chan net.Conn, 1),
 		writeSem:    make(chan net.Conn, 1),
-		pingAck:     make(chan chan<- error, 1),
 		atLeastOnce: outbound{
 			seqSem: make(chan seq, 1), // must singleton
 			queue:  make(chan chan<- error, config.AtLeastOnceMax),
@@ -517,11 +517,8 @@ func (c *Client) termCallbacks() {
 		}
 	}()
 
-	select {
-	case ack := <-c.pingAck:
-		ack <- fmt.Errorf("%w; PING not confirmed", ErrBreak)
-	default:
-		break
+	if ack := c.pingAck.Swap(nil); ack != nil {
+		*ack <- fmt.Errorf("%w; PING not confirmed", ErrBreak)
 	}
 	wg.Wait()
 
@@ -586,11 +583,8 @@ func (c *Client) toOffline() {
 	c.bufr = nil
 	c.peek = nil // applied to prevous r, if any
 
-	select {
-	case ack := <-c.pingAck:
-		ack <- ErrBreak
-	default:
-		break
+	if ack := c.pingAck.Swap(nil); ack != nil {
+		*ack <- ErrBreak
 	}
 
 	c.unorderedTxs.breakAll()
